@@ -141,7 +141,7 @@ impl Tape {
 
 #[derive(Default, Clone, Debug)]
 pub struct SimStats {
-  pub eintr: u64, pub spurious_timeout: u64, pub spurious_ready: u64, pub latency: u64, pub oversleep: u64, pub io_error: u64, pub os_enodev: u64,
+  pub eintr: u64, pub spurious_timeout: u64, pub spurious_ready: u64, pub latency: u64, pub oversleep: u64, pub io_error: u64, pub os_enodev: u64, pub stalled: u64, pub hangups_cross_checked: u64,
   pub order_flipped: u64, pub both_devices_ready: u64, pub kbd_unplugged: u64, pub tab_unplugged: u64, pub arrival_during_drain: u64,
   pub backoff_sleeps: u64, pub multi_event_wakeups: u64, pub max_events_one_wakeup: u64, pub timer_ticks: u64, pub trace_cap_hit: u64,
   pub os_write_fault: [u64; 3], pub os_read_fault: u64, pub real_polls_compared: u64,
@@ -172,6 +172,8 @@ pub trait ByteLayer {
   fn sabotage_reader(&mut self, tablet: bool);
   /// the device is unplugged: from now on reads on its descriptor fail with ENODEV
   fn unplug(&mut self, tablet: bool);
+  /// the device is unplugged: its descriptor shows a hang-up (queued records stay readable)
+  fn hangup(&mut self, tablet: bool);
 }
 
 pub struct Sim<'a> {
@@ -201,6 +203,7 @@ pub struct Sim<'a> {
   sends_done: usize,
   hw_failed: bool,
   kbd_sabotaged: bool,
+  kbd_hup_checked: bool, tab_hup_checked: bool,
   tab_sabotaged: bool,
   pub stats: SimStats,
   pub bytes: Option<&'a mut dyn ByteLayer>,
@@ -214,7 +217,7 @@ impl<'a> Sim<'a> {
     reset_sim_slept_us();
     Sim { tape, cfg: case.cfg.clone(), kbd: case.kbd.iter().cloned().collect(), tab: if case.has_tablet { case.tab.iter().cloned().collect() } else { VecDeque::new() }, has_tablet: case.has_tablet,
       kbd_ready: VecDeque::new(), tab_ready: VecDeque::new(), kbd_notify: false, tab_notify: false, trace: vec![], fail_at: case.fail_at, calls: 0,
-      kbd_ended: false, tab_ended: false, kbd_end_at: case.kbd_end_at, tab_end_at: if case.has_tablet { case.tab_end_at } else { None }, extra_ticks: case.extra_ticks, interrupts: 0, in_drain: false, write_fault: if case.hybrid { case.write_fault } else { None }, read_fault: if case.hybrid { case.read_fault } else { None }, kbd_reads_done: 0, tab_reads_done: 0, sends_done: 0, hw_failed: false, kbd_sabotaged: false, tab_sabotaged: false,
+      kbd_ended: false, tab_ended: false, kbd_end_at: case.kbd_end_at, tab_end_at: if case.has_tablet { case.tab_end_at } else { None }, extra_ticks: case.extra_ticks, interrupts: 0, in_drain: false, write_fault: if case.hybrid { case.write_fault } else { None }, read_fault: if case.hybrid { case.read_fault } else { None }, kbd_reads_done: 0, tab_reads_done: 0, sends_done: 0, hw_failed: false, kbd_sabotaged: false, tab_sabotaged: false, kbd_hup_checked: false, tab_hup_checked: false,
       stats: SimStats::default(), bytes, byte_error: None,
       // runaway guard; scaled for marathon scripts
       cap: TRACE_CAP.max(10 * (case.kbd.len() + case.tab.len()) + 1000) }
@@ -232,8 +235,8 @@ impl<'a> Sim<'a> {
       let et = self.tab_end_at.filter(|t| *t <= now && !self.tab_ended);
       let next = [tk, tt, ek, et].iter().flatten().min().cloned();
       let t = match next { Some(t) => t, None => break };
-      if ek == Some(t) && tk.map(|x| x >= t).unwrap_or(true) { self.kbd_ended = true; self.kbd_notify = true; self.stats.kbd_unplugged += 1; continue; }
-      if et == Some(t) && tt.map(|x| x >= t).unwrap_or(true) { self.tab_ended = true; self.tab_notify = true; self.stats.tab_unplugged += 1; continue; }
+      if ek == Some(t) && tk.map(|x| x >= t).unwrap_or(true) { self.kbd_ended = true; self.kbd_notify = true; self.stats.kbd_unplugged += 1; if let Some(b) = self.bytes.as_mut() { b.hangup(false); } continue; }
+      if et == Some(t) && tt.map(|x| x >= t).unwrap_or(true) { self.tab_ended = true; self.tab_notify = true; self.stats.tab_unplugged += 1; if let Some(b) = self.bytes.as_mut() { b.hangup(true); } continue; }
       if tk == Some(t) {
         let (_, e) = self.kbd.pop_front().unwrap();
         if self.kbd_sabotaged { continue; } // the descriptor is dead: nothing more can be read from it
@@ -286,7 +289,24 @@ impl<'a> Sim<'a> {
   fn cross_check_real_poll(&mut self, sim: Option<&Vec<VDevice>>) {
     if self.hw_failed { return; }
     let real = match self.bytes.as_mut() { None => return, Some(b) => b.poll_now() };
-    if self.kbd_ended || self.tab_ended { return; } // an unplug has no counterpart on a pipe
+    if self.kbd_ended || self.tab_ended {
+      // An unplugged device shows as a hang-up on its descriptor. Readiness is edge-triggered: the
+      // real driver must report the device at the first poll after the hang-up, or the loop never
+      // reads the ENODEV and never stops. (Afterwards a pipe has no counterpart for the dead node.)
+      for (ended, checked, dev, name) in [(self.kbd_ended, &mut self.kbd_hup_checked, VDevice::Keyboard, "keyboard"), (self.tab_ended && self.has_tablet, &mut self.tab_hup_checked, VDevice::Tablet, "tablet switch")] {
+        if ended && !*checked {
+          *checked = true;
+          self.stats.hangups_cross_checked += 1;
+          let e = match &real {
+            Ok(Some(r)) if r.contains(&dev) => None,
+            Ok(r) => Some(format!("[driver]{} the {} was unplugged (hang-up on its descriptor) but the real driver's poll reported {:?}: the loop never reads the ENODEV", if dev == VDevice::Tablet { "[tablet]" } else { "" }, name, r.clone().unwrap_or_default())),
+            Err(e) => Some(format!("[driver] the real driver's poll failed on pipes: {}", e)),
+          };
+          if let Some(e) = e { if self.byte_error.is_none() { self.byte_error = Some(e); } }
+        }
+      }
+      return;
+    }
     self.stats.real_polls_compared += 1;
     let err = match (real, sim) {
       (Err(e), _) => Some(format!("the real driver's poll failed on pipes: {}", e)),
@@ -298,7 +318,7 @@ impl<'a> Sim<'a> {
         for d in &r { if !ds.contains(d) { e = Some(format!("the real driver's poll reported {:?} where only {:?} had new data", r, ds)); } }
         for d in ds { if !r.contains(d) {
           let has_data = match d { VDevice::Keyboard => !self.kbd_ready.is_empty(), VDevice::Tablet => !self.tab_ready.is_empty() };
-          if has_data { e = Some(format!("{:?} has unread new data but the real driver's poll reported only {:?}", d, r)); }
+          if has_data { e = Some(format!("{}{:?} has unread new data but the real driver's poll reported only {:?}", if *d == VDevice::Tablet { "[tablet] " } else { "" }, d, r)); }
         } }
         e
       }
@@ -307,8 +327,16 @@ impl<'a> Sim<'a> {
   }
   /// no byte-format disagreement recorded yet (a "[driver]" note may be overwritten by one)
   fn no_wire_error(&self) -> bool { self.byte_error.as_ref().map_or(true, |m| m.starts_with("[driver]")) }
+  /// The keyboard is gone, the loop was told so (readiness is edge-triggered: once) and went back
+  /// to waiting without having read the end of the device; nothing will ever arrive again. On a
+  /// real system it now sleeps for ever, or ticks its timer for ever. The run ends here.
+  fn stalled(&mut self, t_in: u64, to_us: Option<u64>) -> Result<VPoll, String> {
+    self.stats.stalled += 1;
+    let _ = (t_in, to_us);
+    Err("simulator: runaway loop (the keyboard is gone and the loop was notified, but it waits again without having read the end of the device)".to_string())
+  }
   fn unplug_keyboard_now(&mut self) {
-    if !self.kbd_ended { self.kbd_ended = true; self.kbd_notify = true; self.stats.kbd_unplugged += 1; }
+    if !self.kbd_ended { self.kbd_ended = true; self.kbd_notify = true; self.stats.kbd_unplugged += 1; if let Some(b) = self.bytes.as_mut() { b.hangup(false); } }
   }
 }
 
@@ -361,7 +389,7 @@ impl<'a> VerifDriver for Sim<'a> {
       else {
         match (next_arrival, deadline) {
           (Some(a), d) if d.map(|d| a <= d).unwrap_or(true) => { self.advance(a); }
-          (None, Some(_)) if self.extra_ticks == 0 => { self.unplug_keyboard_now(); }
+          (None, Some(_)) if self.extra_ticks == 0 => { if self.kbd_ended { return self.stalled(t_in, to_us); } self.unplug_keyboard_now(); }
           (_, Some(d)) => {
             if next_arrival.is_none() { self.extra_ticks -= 1; }
             let mut to = d;
@@ -376,7 +404,7 @@ impl<'a> VerifDriver for Sim<'a> {
               return Ok(VPoll::TimedOut);
             }
           }
-          (None, None) => { self.unplug_keyboard_now(); }
+          (None, None) => { if self.kbd_ended { return self.stalled(t_in, to_us); } self.unplug_keyboard_now(); }
           _ => unreachable!(),
         }
       }
@@ -429,7 +457,7 @@ impl<'a> VerifDriver for Sim<'a> {
       self.trace.push(Item::NextK { res: Some(e.clone()), end: false, t_out: self.now() });
       VNext::One(e)
     } else {
-      if let Some(b) = self.bytes.as_mut() {
+      if let (Some(b), false) = (self.bytes.as_mut(), self.kbd_ended) {
         // nothing delivered: the real reader must skip any foreign records and report EAGAIN
         match b.read_kbd() { Ok(None) => {} Ok(Some(got)) => { if self.no_wire_error() { self.byte_error = Some(format!("real reader returned {} although no key event was pending", ev_str(&got))); } } Err(er) => { if self.no_wire_error() { self.byte_error = Some(format!("real reader failed: {}", er)); } } }
       }
@@ -486,7 +514,7 @@ impl<'a> VerifDriver for Sim<'a> {
       self.trace.push(Item::NextT { res: Some(on), end: false, t_out: self.now() });
       VNext::One(on)
     } else {
-      if let Some(b) = self.bytes.as_mut() {
+      if let (Some(b), false) = (self.bytes.as_mut(), self.tab_ended) {
         match b.read_tab() { Ok(None) => {} Ok(Some(_)) => { if self.no_wire_error() { self.byte_error = Some("real tablet reader returned an event although none was pending".into()); } } Err(er) => { if self.no_wire_error() { self.byte_error = Some(format!("real tablet reader failed: {}", er)); } } }
       }
       if self.tab_ended || !self.has_tablet {
@@ -564,7 +592,7 @@ impl EnB {
 pub struct ObsB {
   pub nt_c10: bool, pub nt_c11: bool, pub nt_c12: bool, pub nt_c19: bool, pub nt_c20: bool,
   pub chords: u64, pub chords_while_held: u64, pub chord_key_held: u64, pub sends: u64, pub tablet_on_while_held: u64, pub tablet_on_while_timer: u64,
-  pub reads_in_tablet_mode: u64, pub timer_disarmed_by_event: u64, pub nochange_while_armed: u64, pub overdue_polls: u64, pub early_polls: u64,
+  pub reads_in_tablet_mode: u64, pub timer_disarmed_by_event: u64, pub nochange_while_armed: u64, pub overdue_polls: u64, pub early_polls: u64, pub orphan_releases_after_tablet: u64,
   pub other_property_disagreements: u64,
   pub shape: u64,
 }
@@ -597,6 +625,7 @@ pub fn check_trace(l: &Layout, trace: &[Item], result: &Result<(), String>, en: 
   let mut events_this_wakeup = 0u32;
   let mut tablet_events = 0u32;
   let mut timer_gen = 0u64;
+  let mut seen_pressed: Vec<KeyCode> = vec![];
   let mut sh = H::new();
   let mut first: Option<Violation> = None;
   macro_rules! report { ($label:expr, $at:expr, $detail:expr) => {{
@@ -720,6 +749,19 @@ pub fn check_trace(l: &Layout, trace: &[Item], result: &Result<(), String>, en: 
             if events_this_wakeup >= 2 { obs.nt_c10 = true; }
             if !tablet {
               let sr = mapper.step(e.clone());
+              // "releases of keys pressed before or during tablet mode produce no output": after a
+              // tablet-mode change, the release of a key whose press the loop has not handed to the
+              // mapper since is owed nothing — whatever the mapper under test says
+              match e {
+                Pressed(k) => { if !seen_pressed.contains(k) { seen_pressed.push(*k); } }
+                Released(k) => {
+                  if let Some(p) = seen_pressed.iter().position(|x| x == k) { seen_pressed.remove(p); }
+                  else if tablet_events > 0 {
+                    obs.orphan_releases_after_tablet += 1;
+                    if !sr.events.is_empty() { report!("C12-orphan-release", i, format!("{} was pressed before or during tablet mode; its release afterwards must produce no output, the mapper answered {}", key_name(k), evs_str(&sr.events))); }
+                  }
+                }
+              }
               if !sr.events.is_empty() { pending.push_back(Group { kind: Kind::Step, evs: sr.events.into_iter().collect(), set: vec![], before: None, tablet_on: false, optional: false, gen: 0 }); }
               match sr.repeat {
                 ResultingRepeat::Repeating { keys, delay_ms, interval_ms } => {
@@ -747,6 +789,7 @@ pub fn check_trace(l: &Layout, trace: &[Item], result: &Result<(), String>, en: 
             tablet = *on;
             timer = None;
             tablet_events += 1;
+            seen_pressed.clear();
             // owed: the keys held on the virtual keyboard are released (the statement fixes no order);
             // afterwards "mapping resumes as from a fresh start": the model goes on with a brand-new
             // mapper instead of trusting release_all's reset
